@@ -12,7 +12,7 @@ package config
 // ---- C18: an accepted pipeline has no dangling reference; C08: every stage owns its task
 //@ func buildPipeline
 //@   requires emptyG(g) && cfgOK(cfg)
-//@   modifies *
+//@   modifies contents(g.nodes), contents(g.from), contents(g.to)
 //@   ensures #C18.error-means-nil result#1 != nil ==> result == nil
 //@   ensures #C18.accepted-wf result#1 == nil ==> result == g && wfS(g) && depsAre(g) && hasWork(g)
 //@   loop 1 "range stages"
